@@ -43,6 +43,8 @@ Raw(i) == Trace[i].st
 Ledgers(i) == DOMAIN Raw(i)
 LS(i, lg) == ToLS(Raw(i)[lg])
 IsReset(i) == Trace[i].reset
+IsConc(i) == Trace[i].conc
+IsSeq(i) == ~Trace[i].reset /\ ~Trace[i].conc
 
 Init == l = 0 /\ iks = <<>>
 
@@ -67,6 +69,8 @@ Next ==
   /\ l' = l + 1
   /\ IF IsReset(l + 1)
      THEN iks' = <<>>
+     ELSE IF IsConc(l + 1)
+     THEN iks' = iks   \* concurrent lines branch off the last sequential state; they are not cumulative
      ELSE LET e == Trace[l + 1]
               lg == e.op.l
               x == X(l + 1)
@@ -202,8 +206,90 @@ P_C31_Events(i) ==
 P_ResetPristine(i) == \A g \in Ledgers(i) : Raw(i)[g].txs = <<>> /\ Raw(i)[g].logs = <<>>
 
 (***************************************************************************)
+(* Concurrent lines.  Line i carries n requests issued concurrently (under  *)
+(* one statement-level schedule chosen by the harness) from the state of    *)
+(* the last sequential line, their outcomes, their commit ranks and the     *)
+(* state observed after all of them returned.  Ledger says every request    *)
+(* takes effect atomically at its commit: so there must be a serial order,  *)
+(* agreeing with the observed commit order, in which Ledger!Apply yields    *)
+(* exactly the observed outcomes and the observed final state.  This is     *)
+(* where "the balance the account actually has when the transaction         *)
+(* commits" (C06), exactly-once under a shared idempotency key (C13),       *)
+(* reference uniqueness (C14) and single revert (C15) are decided.          *)
+(***************************************************************************)
+BaseOf(i) == CHOOSE j \in 1..(i - 1) : ~Trace[j].conc /\ \A k \in (j + 1)..(i - 1) : Trace[k].conc
+NOps(i) == Len(Trace[i].ops)
+
+Canon(ls) == [txs |-> ToSet(ls.txs), accts |-> ls.accts,
+              logs |-> {[type |-> g.type, date |-> g.date, ik |-> g.ik, tx |-> g.tx, tgt |-> g.tgt, key |-> g.key, meta |-> g.meta]
+                          : g \in ToSet(ls.logs)}]
+
+RECURSIVE SerialFold(_, _, _, _, _)
+\* applies ops p[k..n] of line i in order; returns [good, ls]
+SerialFold(ls, ik, i, p, k) ==
+  IF k > NOps(i) THEN [good |-> TRUE, ls |-> ls]
+  ELSE LET j == p[k]
+           op == Trace[i].ops[j]
+           r == Trace[i].ress[j]
+           txid == IF r.ok /\ r.id # 0 /\ ~r.hit THEN r.id ELSE MaxTxId(ls) + 1000
+           x == Apply(ls, ik, op, txid, MaxLogId(ls) + 1)
+           \* a concurrent duplicate may be answered by the idempotent replay or by an explicit conflict error
+           match == \/ (x.ok = r.ok /\ x.err = r.err /\ x.hit = r.hit
+                         /\ (x.ok /\ op.k \in {"create", "revert"} => x.id = r.id))
+                    \/ (x.hit /\ ~r.ok /\ r.err = "ik_conflict")
+           committed == x.ok /\ ~x.hit /\ ~op.dry
+           ik2 == IF committed /\ op.ik # ""
+                  THEN [q \in DOMAIN ik \cup {op.ik} |-> IF q = op.ik THEN [ikin |-> op.ikin, id |-> x.id] ELSE ik[q]]
+                  ELSE ik
+       IN IF match THEN SerialFold(x.ls, ik2, i, p, k + 1) ELSE [good |-> FALSE, ls |-> ls]
+
+RespectsCommitOrder(i, p) ==
+  \A a, b \in 1..NOps(i) : a < b /\ Trace[i].cseq[p[a]] > 0 /\ Trace[i].cseq[p[b]] > 0
+                              => Trace[i].cseq[p[a]] < Trace[i].cseq[p[b]]
+
+Serializable(i) ==
+  LET lg == Trace[i].op.l
+      b == BaseOf(i)
+  IN \E p \in Permutations(1..NOps(i)) :
+        /\ RespectsCommitOrder(i, p)
+        /\ LET f == SerialFold(LS(b, lg), IksOf(lg), i, p, 1)
+           IN f.good /\ Canon(f.ls) = Canon(LS(i, lg))
+
+PC_C06_Serializable(i) == Trace[i].prop = "C06" => Serializable(i)
+PC_C13_Serializable(i) == Trace[i].prop = "C13" => Serializable(i)
+PC_C14_Serializable(i) == Trace[i].prop = "C14" => Serializable(i)
+PC_C15_Serializable(i) == Trace[i].prop = "C15" => Serializable(i)
+PC_C16_Serializable(i) == Trace[i].prop = "C16" => Serializable(i)
+
+\* C16: among committed writes a later commit never receives a smaller transaction id / log id
+NewTxOps(i) == {j \in 1..NOps(i) : Trace[i].cseq[j] > 0 /\ Trace[i].ops[j].k \in {"create", "revert"}}
+LogIdOf(i, j) == LET o == Raw(i)[Trace[i].op.l]
+                     ks == {k \in DOMAIN o.logs : o.logs[k].tx = Trace[i].ress[j].id
+                                                   /\ o.logs[k].type \in {"NEW_TRANSACTION", "REVERTED_TRANSACTION"}}
+                 IN IF ks = {} THEN 0 ELSE o.logs[CHOOSE k \in ks : TRUE].id
+PC_C16_TxIdCommitOrder(i) ==
+  \A a, b \in NewTxOps(i) : Trace[i].cseq[a] < Trace[i].cseq[b] => Trace[i].ress[a].id < Trace[i].ress[b].id
+PC_C16_LogIdCommitOrder(i) ==
+  \A a, b \in NewTxOps(i) : Trace[i].cseq[a] < Trace[i].cseq[b] => LogIdOf(i, a) < LogIdOf(i, b)
+
+\* C09: with HASH_LOGS = SYNC every log chains from the log just before it in id order (linear chain)
+PC_C09_LinearChain(i) ==
+  LET o == Raw(i)[Trace[i].op.l]
+  IN o.flags.hash =>
+       \A k \in DOMAIN o.logs : Trace[i].chain[k] = (IF k = 1 THEN 0 ELSE o.logs[k - 1].id)
+
+(***************************************************************************)
 (* The same predicates as TLC invariants / action properties               *)
 (***************************************************************************)
+StepC_C06_Serializable == [][IsConc(l') => PC_C06_Serializable(l')]_vars
+StepC_C13_Serializable == [][IsConc(l') => PC_C13_Serializable(l')]_vars
+StepC_C14_Serializable == [][IsConc(l') => PC_C14_Serializable(l')]_vars
+StepC_C15_Serializable == [][IsConc(l') => PC_C15_Serializable(l')]_vars
+StepC_C16_Serializable == [][IsConc(l') => PC_C16_Serializable(l')]_vars
+StepC_C16_TxIdCommitOrder == [][IsConc(l') => PC_C16_TxIdCommitOrder(l')]_vars
+StepC_C16_LogIdCommitOrder == [][IsConc(l') => PC_C16_LogIdCommitOrder(l')]_vars
+StepC_C09_LinearChain == [][IsConc(l') => PC_C09_LinearChain(l')]_vars
+
 Inv_C01_Conservation == l >= 1 => I_C01_Conservation(l)
 Inv_C02_VolumesAreFold == l >= 1 => I_C02_VolumesAreFold(l)
 Inv_C03_PostCommitVolumes == l >= 1 => I_C03_PostCommitVolumes(l)
@@ -217,21 +303,21 @@ Inv_C18_RevertFirstUsage == l >= 1 => I_C18_RevertFirstUsage(l)
 Inv_C28_WellFormed == l >= 1 => I_C28_WellFormed(l)
 Inv_C35_Hashes == l >= 1 => I_C35_Hashes(l)
 
-Step_C25_Funds == [][~IsReset(l') => P_C25_Funds(l')]_vars
-Step_C14_RefOutcome == [][~IsReset(l') => P_C14_RefOutcome(l')]_vars
-Step_C15_RevertOutcome == [][~IsReset(l') => P_C15_RevertOutcome(l')]_vars
-Step_C13_Idempotency == [][~IsReset(l') => P_C13_Idempotency(l')]_vars
-Step_C17_MetaOutcome == [][~IsReset(l') => P_C17_MetaOutcome(l')]_vars
-Step_Outcome == [][~IsReset(l') => P_Outcome(l')]_vars
-Step_C07_NoTrace == [][~IsReset(l') => P_C07_NoTrace(l')]_vars
-Step_C08_OneLog == [][~IsReset(l') => P_C08_OneLog(l')]_vars
-Step_C25_Recorded == [][~IsReset(l') => P_C25_Recorded(l')]_vars
-Step_C15_Reverted == [][~IsReset(l') => P_C15_Reverted(l')]_vars
-Step_C17_Metadata == [][~IsReset(l') => P_C17_Metadata(l')]_vars
-Step_C18_Accounts == [][~IsReset(l') => P_C18_Accounts(l')]_vars
-Step_C03_Immutable == [][~IsReset(l') => P_C03_Immutable(l')]_vars
-Step_C19_Frame == [][~IsReset(l') => P_C19_Frame(l')]_vars
-Step_C31_Events == [][~IsReset(l') => P_C31_Events(l')]_vars
+Step_C25_Funds == [][IsSeq(l') =>P_C25_Funds(l')]_vars
+Step_C14_RefOutcome == [][IsSeq(l') =>P_C14_RefOutcome(l')]_vars
+Step_C15_RevertOutcome == [][IsSeq(l') =>P_C15_RevertOutcome(l')]_vars
+Step_C13_Idempotency == [][IsSeq(l') =>P_C13_Idempotency(l')]_vars
+Step_C17_MetaOutcome == [][IsSeq(l') =>P_C17_MetaOutcome(l')]_vars
+Step_Outcome == [][IsSeq(l') =>P_Outcome(l')]_vars
+Step_C07_NoTrace == [][IsSeq(l') =>P_C07_NoTrace(l')]_vars
+Step_C08_OneLog == [][IsSeq(l') =>P_C08_OneLog(l')]_vars
+Step_C25_Recorded == [][IsSeq(l') =>P_C25_Recorded(l')]_vars
+Step_C15_Reverted == [][IsSeq(l') =>P_C15_Reverted(l')]_vars
+Step_C17_Metadata == [][IsSeq(l') =>P_C17_Metadata(l')]_vars
+Step_C18_Accounts == [][IsSeq(l') =>P_C18_Accounts(l')]_vars
+Step_C03_Immutable == [][IsSeq(l') =>P_C03_Immutable(l')]_vars
+Step_C19_Frame == [][IsSeq(l') =>P_C19_Frame(l')]_vars
+Step_C31_Events == [][IsSeq(l') =>P_C31_Events(l')]_vars
 Step_ResetPristine == [][IsReset(l') => P_ResetPristine(l')]_vars
 
 Accepted == TLCGet("stats").diameter - 1 = Len(Trace)
@@ -270,13 +356,25 @@ StepChecks(i) ==
      <<"Step_C19_Frame", P_C19_Frame(i)>>,
      <<"Step_C31_Events", P_C31_Events(i)>> >>
 
-Report(cs, i) == \A k \in DOMAIN cs : cs[k][2] \/ PrintT(<<"FAIL", cs[k][1], i, Trace[i].case>>)
+ConcChecks(i) ==
+  << <<"StepC_C06_Serializable", PC_C06_Serializable(i)>>,
+     <<"StepC_C13_Serializable", PC_C13_Serializable(i)>>,
+     <<"StepC_C14_Serializable", PC_C14_Serializable(i)>>,
+     <<"StepC_C15_Serializable", PC_C15_Serializable(i)>>,
+     <<"StepC_C16_Serializable", PC_C16_Serializable(i)>>,
+     <<"StepC_C16_TxIdCommitOrder", PC_C16_TxIdCommitOrder(i)>>,
+     <<"StepC_C16_LogIdCommitOrder", PC_C16_LogIdCommitOrder(i)>>,
+     <<"StepC_C09_LinearChain", PC_C09_LinearChain(i)>> >>
+
+Report(cs, i) ==\A k \in DOMAIN cs : cs[k][2] \/ PrintT(<<"FAIL", cs[k][1], i, Trace[i].case>>)
 
 ReportNext ==
   /\ Next
   /\ Report(StateChecks(l'), l')
   /\ IF IsReset(l')
      THEN P_ResetPristine(l') \/ PrintT(<<"FAIL", "Step_ResetPristine", l', Trace[l'].case>>)
+     ELSE IF IsConc(l')
+     THEN Report(ConcChecks(l'), l')
      ELSE Report(StepChecks(l'), l')
 
 ReportSpec == Init /\ [][ReportNext]_vars
